@@ -22,6 +22,11 @@ CONSTANTS MaxEntries,    \* longest skeleton
           Allowances,    \* set of flakiness allowances explored (target.Test.Flakiness)
           Budget,        \* bound: Len(skeleton) * allowance <= Budget
           Canonical,     \* TRUE: only skeletons whose first entry is (c1, n1) (class/name renaming symmetry)
+          Flaw_SyntheticCaseOnErrorsOnly,
+                         \* TRUE: also model parseTestOutput's extra case "Test returned nonzero but reported no
+                         \* errors", which the code adds when the attempt exits non-zero and NO case FAILED -- even
+                         \* if cases ERRORED. A recorded flaw of the code (findings.d/results.json): with TRUE, TLC is
+                         \* expected to refute CountsOK (cfg MC_TestResults_known.cfg); FALSE everywhere else.
           Emit
 
 Outcomes == {"pass", "fail", "error", "skip"}
@@ -29,7 +34,7 @@ Ok(o) == o \in {"pass", "skip"}
 Classes == {"c1", "c2"}
 Names == {"n1", "n2"}
 Idents == [cls : Classes, name : Names]          \* identity of a test case = (classname, name)
-Formats == {"xml", "go"}
+Formats == IF Flaw_SyntheticCaseOnErrorsOnly THEN {"xml"} ELSE {"xml", "go"}
 Layouts == {"flat", "suites", "nested"}          \* XML structures the same cases are rendered in (harness)
 View(f, o) == IF f = "go" /\ o = "error" THEN "fail" ELSE o
 
@@ -70,8 +75,11 @@ Init == /\ skel \in Skeletons
         /\ runs = <<>>
         /\ results = <<>>
         /\ stopped = FALSE
-Entries(outs) == [i \in 1..Len(skel) |-> [id |-> skel[i], out |-> outs[i]]]
 AllOk(outs) == \A i \in 1..Len(outs) : Ok(outs[i])
+\* parseTestOutput: if runError != nil && results.Failures() == 0 { results.Add(failSuite(...)) }
+Synthetic(outs) == IF Flaw_SyntheticCaseOnErrorsOnly /\ ~AllOk(outs) /\ ~\E i \in 1..Len(outs) : outs[i] = "fail"
+                   THEN <<[id |-> [cls |-> "", name |-> "the_test"], out |-> "error"]>> ELSE <<>>
+Entries(outs) == [i \in 1..Len(skel) |-> [id |-> skel[i], out |-> outs[i]]] \o Synthetic(outs)
 Run(outs) == /\ ~stopped
              /\ Len(runs) < allow                       \* for flakes := 1; flakes <= Flakiness
              /\ runs' = Append(runs, outs)
